@@ -17,14 +17,21 @@ STUBS = ['the ACK-feeding peer (records segments, builds ACK packets)', 'the tex
 ASSUMPTIONS = ['ssthresh after a retransmission timeout is not specified by the statement: the reference adopts the observed '
                'value there', 'CUBIC congestion avoidance: only the consequences are checked (per new ACK cwnd grows by 0 or '
                '1 MSS, never shrinks)', 'scripted new ACKs never acknowledge unsent data; duplicates repeat the current mark']
-PROBES = ['buffered_not_multiple_of_mss', 'paced_flow', 'one_or_two_dups_then_new', 'ge4_dups', 'ack_advancing_several', 'timeout_during_fast_recovery', 'timeout',
+PROBES = ['ack_in_expiry_instant', 'buffered_not_multiple_of_mss', 'paced_flow', 'one_or_two_dups_then_new', 'ge4_dups', 'ack_advancing_several', 'timeout_during_fast_recovery', 'timeout',
           'fast_retransmit', 'congestion_avoidance', 'slow_start', 'cc_cubic', 'dups_with_nothing_outstanding']
 
 
 def gen(rng, tier):
     cc = rng.choice(['reno', 'reno', 'reno', 'cubic'])
     ev = []
-    for _ in range(rng.randint(1, 40 if tier == 'thorough' else 25)):
+    long_ca = rng.random() < 0.05
+    if long_ca:
+        # a long stretch of congestion avoidance: hundreds of single-segment ACKs, cwnd takes many fractional values
+        for _ in range(rng.randint(150, 380)):
+            ev.append(['new', 1, rng.choice([0.01, 0.05, 0.1])])
+            if rng.random() < 0.01:
+                ev.append(['dup', 3])
+    for _ in range(0 if long_ca else rng.randint(1, 40 if tier == 'thorough' else 25)):
         r = rng.random()
         if r < 0.55:
             ev.append(['new', rng.choice([1, 1, 1, 2, 3, 5]), rng.choice([0.01, 0.05, 0.1, 0.3, 1.0, 2.5])])
@@ -32,12 +39,17 @@ def gen(rng, tier):
             ev.append(['dup', rng.choice([1, 1, 2, 2, 3, 3, 4, 6])])
         else:
             ev.append(['wait', rng.choice([0.5, 2.0, 5.0, 20.0])])
-    return {'cc': cc, 'segments': rng.choice([400, 400, 3, 8]),
+    sync = None
+    if rng.random() < 0.12:
+        # a new ACK arrives in the very instant a retransmission timer is due and is handled ahead of it
+        sync = [rng.randrange(4), rng.choice([1, 1, 2, 5])]
+    return {'cc': cc, 'segments': 2000 if long_ca else rng.choice([400, 400, 3, 8]), 'sync_ack': sync,
             'pace': rng.choice([None, None, 0.5, 1.0, 2.0]),   # application-limited (paced) flows
             'msg': rng.choice([MSS, MSS, 200, 700, 1000]),     # paced flows: bytes handed over per arrival
-            'tail': rng.choice([0, 0, 0, 200, 464]),           # flow size need not be a multiple of the MSS 'rtt_est': rng.choice([0.05, 0.2, 1.0, 3.0]),
+            'tail': rng.choice([0, 0, 0, 200, 464]),           # flow size need not be a multiple of the MSS
+            'rtt_est': rng.choice([0.05, 0.2, 1.0, 3.0]),
             'cwnd': rng.choice([MSS, 2 * MSS, 4 * MSS, 10 * MSS, 20 * MSS]),
-            'ssthresh': rng.choice([65535, 1024, 2048, 4096, 8192]), 'events': ev}
+            'ssthresh': rng.choice([1024, 2048]) if long_ca else rng.choice([65535, 1024, 2048, 4096, 8192]), 'events': ev}
 
 
 def valid(case):
@@ -63,9 +75,36 @@ class Peer:
 
 
 def run(case):
+    sync = case.get('sync_ack')
+    at = None
+    if sync:
+        # dry run: the instants at which retransmission timers expire; the run proper delivers one more new ACK in such
+        # an instant through an occurrence scheduled before everything else (so it is handled ahead of the timer)
+        dry = execute(case, None)
+        tos = [r[2] for r in dry.log if r[0] == 'TO' and r[4] == 'enter']
+        if tos:
+            at = (tos[sync[0] % len(tos)], sync[1])
+    w = execute(case, at)
+    viol, stats, nt = check(w, case)
+    if at is not None:
+        stats['ack_in_expiry_instant'] = 1
+    res = {'viol': viol, 'digest': digest_of(w.log), 'nontrivial': nt, 'stats': stats, 'simtime': float(w.env.now),
+           'steps': w.steps}
+    if case.get('_excerpt'):
+        res['excerpt'] = [repr(r) for r in w.log[-80:]]
+    return res
+
+
+def execute(case, at):
     w = NetWorld()
     env = w.env
     peer = Peer(w)
+    hold = {}
+    if at is not None:
+        def early():
+            yield env.timeout(at[0])
+            hold['fire']()
+        env.process(early())
     sender, flow = make_sender(w, case, peer)
     fid = flow.flow_id
     acked = [0]
@@ -98,14 +137,18 @@ def run(case):
             else:
                 yield env.timeout(e[1])
             yield env.timeout(0.001)
+    def fire():
+        ackno = min(acked[0] + at[1] * MSS, peer.highest)
+        if ackno <= acked[0]:
+            return
+        w.rec('PRE', 'new', ackno, 0.25)
+        acked[0] = ackno
+        sender.put(mkack(ackno, env.now - 0.25))
+        snap('new', ackno, 0.25, (ackno - sender.last_ack))
+    hold['fire'] = fire
     env.process(script())
-    w.run(max_steps=60000, until=None if False else 1e9)
-    viol, stats, nt = check(w, case)
-    res = {'viol': viol, 'digest': digest_of(w.log), 'nontrivial': nt, 'stats': stats, 'simtime': float(env.now),
-           'steps': w.steps}
-    if case.get('_excerpt'):
-        res['excerpt'] = [repr(r) for r in w.log[-80:]]
-    return res
+    w.run(max_steps=120000, until=1e9)
+    return w
 
 
 def close(a, b):
